@@ -205,10 +205,10 @@ CHECKS["C06"] = {
 CHECKS["C04"] = {
     "module": "rules_c04",
     "level": "translation_validation",
-    "quick_fs": ["default"],
-    "thorough_fs": ["default", "both"],
+    "quick_fs": ["default", "checks"],
+    "thorough_fs": ["default", "checks", "both"],
     "technique": "exhaustive comparison of the const-evaluated encode tables with an independent executable definition; value-partition abstract interpretation of the non-table writers (affine/interval domain over MIR, bisection cells) compared field by field with a documented-structure reference; comparison of each writer's emitted field sequence (resolved MIR calls, linear-form normalisation) with the documented structure of its code",
-    "claim": "Partial, stated as such: (D1) for gamma, delta and zeta3 every table codeword (values <= WRITE_MAX = 63/1023/1023, both endiannesses, 4224 entries) equals the codeword of the published definition as transcribed in refcodes.py, and the documented example table of src/codes/mod.rs agrees with both; (D2) for gamma, delta, zeta_k, minimal binary, pi_k, Rice, Golomb and exp-Golomb the bit-by-bit writer emits on every path exactly the documented sequence of fields: unary(floor(log2(n+1))) then a floor(log2(n+1))-bit field; gamma(length) for delta; Rice_k(length) for pi; unary + minimal binary with the documented arguments for zeta/Golomb; gamma(n>>k) + k bits for exp-Golomb; minimal binary's l-bit prefix first and its extra bit last in both endiannesses; (D3) for gamma, delta, zeta_k (where 2^((h+1)k) is representable), omega (BE blocks and LE rotated blocks), pi_k, Rice_k and minimal binary (enumerated k / bounds u), for both endiannesses and EVERY value of the domain: the MIR of the non-table writer, interpreted abstractly on a partition of [0, 2^64-1], emits exactly the documented primitives with the documented widths, and every field value equals the documented one modulo 2^width as an affine function of n (or as (a*n+b)>>1 / &1 for minimal binary's split word); the reference (sa/refspec.py) is written from the module docs and cross-checked against the bit-level definitions and the documented examples (which exposed a wrong example string in omega.rs, fixed as F21). NOT decided: the bit order inside primitives (C01's clauses), Golomb/exp-Golomb/VByte field values (D2 structure only), parameters outside the enumerated lists.",
+    "claim": "Partial, stated as such: (D1) for gamma, delta and zeta3 every table codeword (values <= WRITE_MAX = 63/1023/1023, both endiannesses, 4224 entries) equals the codeword of the published definition as transcribed in refcodes.py, and the documented example table of src/codes/mod.rs agrees with both; (D2) for gamma, delta, zeta_k, minimal binary, pi_k, Rice, Golomb and exp-Golomb the bit-by-bit writer emits on every path exactly the documented sequence of fields: unary(floor(log2(n+1))) then a floor(log2(n+1))-bit field; gamma(length) for delta; Rice_k(length) for pi; unary + minimal binary with the documented arguments for zeta/Golomb; gamma(n>>k) + k bits for exp-Golomb; minimal binary's l-bit prefix first and its extra bit last in both endiannesses; (D3) for gamma, delta, zeta_k (where 2^((h+1)k) is representable), omega (BE blocks and LE rotated blocks), pi_k, Rice_k and minimal binary (enumerated k / bounds u), for both endiannesses and EVERY value of the domain: the MIR of the non-table writer, interpreted abstractly on a partition of [0, 2^64-1], emits exactly the documented primitives with the documented widths, and every field value equals the documented one modulo 2^width as an affine function of n (or as (a*n+b)>>1 / &1 for minimal binary's split word); the reference (sa/refspec.py) is written from the module docs and cross-checked against the bit-level definitions and the documented examples (which exposed a wrong example string in omega.rs, fixed as F21). D3 is run on the default and on the `checks` feature set (whose writers mask their operands); (D4) VByte: step points, byte counts and continuation-bit ranges of the six writers on every 64-bit value (the rules of C18.V4). NOT decided: the bit order inside primitives (C01's clauses), Golomb/exp-Golomb field values and VByte payload bits (D2 structure only), parameters outside the enumerated lists.",
     "note": "Trusted: rustc const evaluation/MIR, exporter, refcodes.py and the skeleton table (both written from the module documentation). D2 compares resolved calls and linear forms, not source text; an equivalent re-derivation of the same fields with different arithmetic would need the table updated.",
     "explanation": "tables vs definitions + exact emitted fields vs documented structure on every cell of the whole domain + field skeletons",
 }
